@@ -33,6 +33,14 @@ BAD_FORMULAS = [
 ]
 
 
+def _clean_cwd():
+    """Hygiene between fault injections: a scratch directory that an EARLIER rejected call left
+    behind (reported there) must not make every later case fail as well."""
+    if os.path.isdir('__shelve__'):
+        import shutil
+        shutil.rmtree('__shelve__', ignore_errors=True)
+
+
 def _files():
     """Broken files, created once per process in the scratch directory."""
     d = env.scratch_dir()
@@ -203,7 +211,8 @@ def _image_pre(m, u, v, x, y):
 
 
 CONT = ['var', 'and', 'xor', 'ite', 'let', 'exist', 'expr', 'collect', 'swap', 'reorder',
-        'count', 'to_expr', 'pick']
+        'count', 'to_expr', 'pick', 'json', 'pickle']
+FILE_CONT = ('json', 'pickle')      # always run after a fault that involves files
 
 
 def continuation(m, refs, names, U, c):
@@ -245,8 +254,24 @@ def continuation(m, refs, names, U, c):
             if p is None:
                 return None
             return bool(U.cube_mask(p) & ~den(u) & U.full == 0)
+        if c == 'pickle':
+            fname = 'c17-cont-%d.p' % os.getpid()
+            m.dump(fname, roots=[u])
+            back = m.load(fname)
+            os.remove(fname)
+            return den(back[0])
+        if c == 'json':
+            fname = 'c17-cont-%d.json' % os.getpid()
+            a = S.autoref_around(m)
+            f = a._add_int(u)
+            a.dump(fname, [f])
+            back = a.load(fname)
+            os.remove(fname)
+            r = den(back[0].node)
+            del back, f
+            return r
     except Exception as e:  # noqa
-        return 'EXC:' + type(e).__name__
+        return 'EXC:' + type(e).__name__ + ':' + str(e)[:60]
     raise KeyError(c)
 
 
@@ -285,6 +310,7 @@ class FaultBdd(BddMachine):
 
     def inject(self, blob, fi, label, plan):
         rep = self.rep
+        _clean_cwd()
         st = pickle.loads(blob)
         m = st.m
         refs = [e[0] for e in st.h]
@@ -345,11 +371,18 @@ class FaultBdd(BddMachine):
             if h % 3:
                 return
             conts = [CONT[(h + 5 * k) % len(CONT)] for k in range(3)]
+        if not plan and any(w in label for w in ('load', 'dump', 'json', 'pickle')):
+            conts = list(dict.fromkeys(list(conts) + list(FILE_CONT)))
         for c in conts:
             a = pickle.loads(pickle.dumps(st, pickle.HIGHEST_PROTOCOL))
             b = pickle.loads(blob)
             ra = continuation(a.m, [e[0] for e in a.h], self.names, self.U, c)
-            rb = continuation(b.m, [e[0] for e in b.h], self.names, self.U, c)
+            if c in FILE_CONT:
+                # the working directory is shared by both sides: compare with what a dump
+                # followed by a load must give (the same function), not with a second run
+                rb = O.Den(b.m, self.U)(b.h[0][0] if b.h else 1)
+            else:
+                rb = continuation(b.m, [e[0] for e in b.h], self.names, self.U, c)
             if rep is not None:
                 rep.add('continuations')
             if ra != rb:
@@ -463,6 +496,7 @@ class FaultAutoref(AutorefMachine):
 
     def inject(self, blob, fi, plan):
         rep = self.rep
+        _clean_cwd()
         st = pickle.loads(blob)
         label, thunk = autoref_faults(st, self.names)[fi]
         cfg0 = st.bdd.configure()
@@ -518,14 +552,19 @@ class FaultAutoref(AutorefMachine):
             raise Violation('after a rejected call: ' + v.what, fault=label, exception=raised,
                             plan=list(plan), **v.detail)
         # continuation: a few valid operations, compared with an unfaulted copy
-        allc = ('and', 'not', 'var', 'collect', 'reorder', 'add_expr')
+        allc = ('and', 'not', 'var', 'collect', 'reorder', 'add_expr', 'json', 'pickle')
         h = sum(blob[-8:]) + fi
         conts = allc if not self.light else [allc[(h + 3 * k) % len(allc)] for k in range(2)]
+        if not plan and any(w in label for w in ('load', 'dump', 'json', 'pickle')):
+            conts = list(dict.fromkeys(list(conts) + list(FILE_CONT)))
         for c in conts:
             a = pickle.loads(pickle.dumps(st, pickle.HIGHEST_PROTOCOL))
             b = pickle.loads(blob)
             ra = self._cont(a, c)
-            rb = self._cont(b, c)
+            if c in FILE_CONT:
+                rb = O.Den(b.m, self.U)(b.fns[0] if b.fns else b.bdd.true)
+            else:
+                rb = self._cont(b, c)
             if rep is not None:
                 rep.add('continuations')
             if ra != rb:
@@ -556,6 +595,13 @@ class FaultAutoref(AutorefMachine):
             elif c == 'collect':
                 bdd.collect_garbage()
                 return [O.Den(st.m, U)(f) for f in st.fns]
+            elif c in FILE_CONT:
+                fname = 'c17-cont-%d.%s' % (os.getpid(), 'p' if c == 'pickle' else 'json')
+                bdd.dump(fname, [u])
+                back = bdd.load(fname)
+                os.remove(fname)
+                r = back[0]
+                del back
             else:
                 bdd.reorder()
                 return [O.Den(st.m, U)(f) for f in st.fns]
@@ -563,7 +609,7 @@ class FaultAutoref(AutorefMachine):
             st.masks.append(den(r))
             return den(r)
         except Exception as e:  # noqa
-            return 'EXC:' + type(e).__name__
+            return 'EXC:' + type(e).__name__ + ':' + str(e)[:60]
 
     def signature(self, v, action):
         return '%s|%s' % (v.what, v.detail.get('fault', action[0]))
